@@ -15,7 +15,7 @@ type IriExpander struct {
 
 func (i *IriExpander) Expand(iri string) (string, error) {
 	isReservedKeyword := strings.HasPrefix(iri, "@")
-	compactForm := regexp.MustCompile("^[a-zA-Z-0-9\\-]+\\.[\\.(\\\\/)a-zA-Z-0-9\\-]+$")
+	compactForm := regexp.MustCompile("^[a-zA-Z-0-9_\\-]+\\.[\\.(\\\\/)a-zA-Z-0-9_\\-]+$")
 	isCompact := compactForm.MatchString(iri)
 
 	if isCompact {
